@@ -660,8 +660,15 @@ static int get_operands(
 
     if (IS_TOKEN(token, '.'))
     {
-      strcat(instr, ".");
       token_type = tokens_get(asm_context, token, TOKENLEN);
+
+      if (strlen(instr) + strlen(token) + 2 > TOKENLEN)
+      {
+        print_error_unexp(asm_context, token);
+        return -1;
+      }
+
+      strcat(instr, ".");
       strcat(instr, token);
       lower_copy(instr_case, instr);
     }
